@@ -69,3 +69,13 @@ impl MetaMap {
         &self.bitvec[start..end]
     }
 }
+
+#[cfg(feature = "verif-hooks")]
+#[doc(hidden)]
+pub mod verif_hooks {
+    pub fn full_entry(hash: u64) -> u8 {
+        super::full_entry(hash)
+    }
+    pub const EMPTY: u8 = super::EMPTY;
+    pub const TOMBSTONE: u8 = super::TOMBSTONE;
+}
